@@ -198,6 +198,7 @@ func (ic *Credential) nonrevConsumeBuilder() (*NonRevocationProofBuilder, error)
 	// for the verifier to compute our revocation witness e from the proofs
 	select {
 	case b := <-ic.nonrevCache:
+		common.VerifPoint("nonrev.consume.afterReceive")
 		return b, b.UpdateCommit(ic.NonRevocationWitness)
 	default:
 		return ic.NonrevBuildProofBuilder()
@@ -212,6 +213,7 @@ func (ic *Credential) NonrevPrepareCache() error {
 		return nil
 	}
 	if ic.nonrevCache == nil {
+		common.VerifPoint("nonrev.prepare.beforeMake")
 		ic.nonrevCache = make(chan *NonRevocationProofBuilder, 1)
 	}
 	var b *NonRevocationProofBuilder
@@ -227,6 +229,7 @@ func (ic *Credential) NonrevPrepareCache() error {
 	if err != nil {
 		return err
 	}
+	common.VerifPoint("nonrev.prepare.beforePutBack")
 
 	// put it back in the channel, waiting to be consumed by nonrevConsumeBuilder()
 	// if the channel has already been populated by another goroutine in the meantime we just discard
